@@ -8,7 +8,8 @@
   Hypotheses of every theorem
   * `Scene s ns name pod`: the IPAM memory and store are coherent (`Coherent`, which C04's invariant gives for every
     reachable state), the node-subnet cache holds nothing but nodeSubnet(node), the pod lister shows the pod the
-    API server has, and the pod asks for a floating IP.  ANY allocation state, node set, pool objects, workloads.
+    API server has, the pod asks for a floating IP and is not assigned to a node yet.  Bind's Binding call is
+    answered truthfully (`ch'.answer = .truthful`: a lost or refused answer is an API fault).  ANY allocation state, node set, pool objects, workloads.
   * `WF s pod = true` (decidable, `Galaxy/Model/PluginC06.lean`): every pool of the configuration in force is well
     formed, pools are pairwise disjoint address sets, node subnets are pairwise identical or disjoint, the requested
     range lists are pairwise disjoint, names are non-empty without '_'.
@@ -26,7 +27,7 @@
   `Galaxy/Model/PluginC06.lean` are the model's functions, the `*_counter` theorems show what fails at the other
   values (`d7_reseed_counter` = fixed defect D7).
 -/
-import Galaxy.Lemmas.C06Sorted
+import Galaxy.Lemmas.C06Reach
 
 namespace Galaxy.Props.C06
 open Galaxy Galaxy.Plugin Galaxy.Plugin.C06
@@ -80,6 +81,16 @@ theorem fact_ipinfo_from_own_pool :
     of allocateIP are the same, lowest, address - the admissibility refinement `choiceIsMin` at this value. -/
 theorem fact_by_key_without_ranges_sorted : Generated.C06.byKeyNoRangesSorted = true := by decide
 
+/-- updateConfigMap drops the node name → node subnet cache after a configuration change: the deferred closure reads the
+    variable the result of ensureIPAMConf is ASSIGNED to (no shadowing `:=`) and replaces `p.nodeSubnet` under its lock -
+    the model's `reload` sets `nodeCache := []`. -/
+theorem fact_reload_clears_node_subnet_cache : Generated.C06.reloadClearsNodeSubnetCache = true := by decide
+
+/-- At the regenerated fact value, `updateConfigMap` is the model's `reload`. -/
+theorem model_reload_has_source_shape (s : State) (pools : List Pool) :
+    reloadP Generated.C06.reloadClearsNodeSubnetCache s pools = reload s pools := by
+  rw [fact_reload_clears_node_subnet_cache]; exact reloadP_true s pools
+
 /-- At the regenerated fact value, `NodeSubnetsByIPRanges` is the model's `nodeSubnetsByRanges`. -/
 theorem model_nodeSubnetsByRanges_has_source_shape (s : State) (rss : List Ranges) :
     nodeSubnetsByRangesP Generated.C06.nodeSubnetsSeedFirstIndexOnly s rss = nodeSubnetsByRanges s rss := by
@@ -112,19 +123,20 @@ theorem model_toHInfo_has_source_shape (s : State) (ip : IP) :
 theorem filter_then_bind_succeeds (s : State) (ns name : String) (pod : Pod) (nodes : List String) (ch : Choice)
     (node : String) (uid : Nat) (hs : Scene s ns name pod) (hwf : WF s pod = true) (huid : uid = 0 ∨ pod.uid = uid)
     (hn : node ∈ (step facts s (.filter ns name nodes ch 0)).2.nodes) :
-    (∀ ch', (step facts (step facts s (.filter ns name nodes ch 0)).1 (.bind ns name uid node ch' 0 0)).2.res =
+    (∀ ch', ch'.answer = .truthful →
+      (step facts (step facts s (.filter ns name nodes ch 0)).1 (.bind ns name uid node ch' 0 0)).2.res =
         .inadmissible ∨
       okOrWaiting (step facts (step facts s (.filter ns name nodes ch 0)).1 (.bind ns name uid node ch' 0 0)).2.res) ∧
     (∃ ch', okOrWaiting
       (step facts (step facts s (.filter ns name nodes ch 0)).1 (.bind ns name uid node ch' 0 0)).2.res) := by
   obtain ⟨sn, ha⟩ := filter_approved (scene_withFaults hs 0 0) nodes ch node hn
   have hb : BindScene (withFaults (step facts s (.filter ns name nodes ch 0)).1 0 0) ns name pod uid :=
-    ⟨coherent_withFaults ha.coh 0 0, noFault_withFaults _, ha.lister, ha.truth, huid, hs.wants⟩
+    ⟨coherent_withFaults ha.coh 0 0, noFault_withFaults _, ha.lister, ha.truth, huid, hs.wants, hs.pending⟩
   have hr : Ready (withFaults (step facts s (.filter ns name nodes ch 0)).1 0 0) pod node sn :=
     ⟨ha.cached, ha.prepared.free⟩
   have hreq := (WF_parts hwf).2.1
-  refine ⟨fun ch' => ?_, bind_good_exists facts hb hr hreq⟩
-  rcases bind_good facts hb hr hreq ch' with ⟨h, _⟩ | h | ⟨h, _⟩
+  refine ⟨fun ch' hans => ?_, bind_good_exists facts hb hr hreq⟩
+  rcases bind_good facts hb hr hreq ch' hans with ⟨h, _⟩ | h | ⟨h, _⟩
   · exact Or.inl h
   · exact Or.inr (Or.inr h)
   · exact Or.inr (Or.inl h)
@@ -135,12 +147,13 @@ theorem bound_ip_routable (s : State) (ns name : String) (pod : Pod) (nodes : Li
     (node : String) (uid : Nat) (hs : Scene s ns name pod) (hwf : WF s pod = true) (huid : uid = 0 ∨ pod.uid = uid)
     (hone : AtMostOneWithoutRanges s pod)
     (hn : node ∈ (step facts s (.filter ns name nodes ch 0)).2.nodes)
+    (hans : ch'.answer = .truthful)
     (hok : (step facts (step facts s (.filter ns name nodes ch 0)).1 (.bind ns name uid node ch' 0 0)).2.res = .ok) :
     ∀ h, h ∈ (step facts (step facts s (.filter ns name nodes ch 0)).1 (.bind ns name uid node ch' 0 0)).2.ips →
       Routable s h.ip node := by
   obtain ⟨sn, ha⟩ := filter_approved (scene_withFaults hs 0 0) nodes ch node hn
   have hb : BindScene (withFaults (step facts s (.filter ns name nodes ch 0)).1 0 0) ns name pod uid :=
-    ⟨coherent_withFaults ha.coh 0 0, noFault_withFaults _, ha.lister, ha.truth, huid, hs.wants⟩
+    ⟨coherent_withFaults ha.coh 0 0, noFault_withFaults _, ha.lister, ha.truth, huid, hs.wants, hs.pending⟩
   have hr : Ready (withFaults (step facts s (.filter ns name nodes ch 0)).1 0 0) pod node sn :=
     ⟨ha.cached, ha.prepared.free⟩
   have hconf := (WF_parts hwf).1
@@ -149,7 +162,7 @@ theorem bound_ip_routable (s : State) (ns name : String) (pod : Pod) (nodes : Li
       ch').2.res = .ok := hok
   have hh : h ∈ (Plugin.bind facts (withFaults (step facts s (.filter ns name nodes ch 0)).1 0 0) ns name uid node
       ch').2.ips := hh
-  rcases bind_good facts hb hr (WF_parts hwf).2.1 ch' with ⟨hbad, _⟩ | hw | ⟨_, ips, hips, hall⟩
+  rcases bind_good facts hb hr (WF_parts hwf).2.1 ch' hans with ⟨hbad, _⟩ | hw | ⟨_, ips, hips, hall⟩
   · rw [hok] at hbad; cases hbad
   · rw [hok] at hw; cases hw
   · rw [hips] at hh
@@ -168,13 +181,14 @@ theorem bound_ip_routable (s : State) (ns name : String) (pod : Pod) (nodes : Li
 theorem ipinfo_from_pool (s : State) (ns name : String) (pod : Pod) (nodes : List String) (ch ch' : Choice)
     (node : String) (uid : Nat) (hs : Scene s ns name pod) (hwf : WF s pod = true) (huid : uid = 0 ∨ pod.uid = uid)
     (hn : node ∈ (step facts s (.filter ns name nodes ch 0)).2.nodes)
+    (hans : ch'.answer = .truthful)
     (hok : (step facts (step facts s (.filter ns name nodes ch 0)).1 (.bind ns name uid node ch' 0 0)).2.res = .ok) :
     ∀ h, h ∈ (step facts (step facts s (.filter ns name nodes ch 0)).1 (.bind ns name uid node ch' 0 0)).2.ips →
       (∃ p, p ∈ s.pools ∧ p.has h.ip = true) ∧
       ∀ p, p ∈ s.pools → p.has h.ip = true → h.bits = p.bits ∧ h.gw = p.gateway ∧ h.vlan = p.vlan := by
   obtain ⟨sn, ha⟩ := filter_approved (scene_withFaults hs 0 0) nodes ch node hn
   have hb : BindScene (withFaults (step facts s (.filter ns name nodes ch 0)).1 0 0) ns name pod uid :=
-    ⟨coherent_withFaults ha.coh 0 0, noFault_withFaults _, ha.lister, ha.truth, huid, hs.wants⟩
+    ⟨coherent_withFaults ha.coh 0 0, noFault_withFaults _, ha.lister, ha.truth, huid, hs.wants, hs.pending⟩
   have hr : Ready (withFaults (step facts s (.filter ns name nodes ch 0)).1 0 0) pod node sn :=
     ⟨ha.cached, ha.prepared.free⟩
   have hd := (wfConf_parts (WF_parts hwf).1).2.1
@@ -183,7 +197,7 @@ theorem ipinfo_from_pool (s : State) (ns name : String) (pod : Pod) (nodes : Lis
       ch').2.res = .ok := hok
   have hh : h ∈ (Plugin.bind facts (withFaults (step facts s (.filter ns name nodes ch 0)).1 0 0) ns name uid node
       ch').2.ips := hh
-  rcases bind_good facts hb hr (WF_parts hwf).2.1 ch' with ⟨hbad, _⟩ | hw | ⟨_, ips, hips, hall⟩
+  rcases bind_good facts hb hr (WF_parts hwf).2.1 ch' hans with ⟨hbad, _⟩ | hw | ⟨_, ips, hips, hall⟩
   · rw [hok] at hbad; cases hbad
   · rw [hok] at hw; cases hw
   · rw [hips] at hh
@@ -223,6 +237,7 @@ theorem bound_ip_is_lowest_held (s : State) (ns name : String) (pod : Pod) (node
     (hmin : choiceIsMin Generated.C06.byKeyNoRangesSorted s pod ch = true)
     (hmin' : choiceIsMin Generated.C06.byKeyNoRangesSorted (step facts s (.filter ns name nodes ch 0)).1 pod ch' = true)
     (hn : node ∈ (step facts s (.filter ns name nodes ch 0)).2.nodes)
+    (hans : ch'.answer = .truthful)
     (hok : (step facts (step facts s (.filter ns name nodes ch 0)).1 (.bind ns name uid node ch' 0 0)).2.res = .ok) :
     (step facts (step facts s (.filter ns name nodes ch 0)).1 (.bind ns name uid node ch' 0 0)).2.ips = [toHInfo s m] ∧
       Routable s m node := by
@@ -236,12 +251,12 @@ theorem bound_ip_is_lowest_held (s : State) (ns name : String) (pod : Pod) (node
     exact (Option.some.inj this).symm
   subst hip
   have hb : BindScene (withFaults (step facts s (.filter ns name nodes ch 0)).1 0 0) ns name pod uid :=
-    ⟨coherent_withFaults ha.coh 0 0, noFault_withFaults _, ha.lister, ha.truth, huid, hs.wants⟩
+    ⟨coherent_withFaults ha.coh 0 0, noFault_withFaults _, ha.lister, ha.truth, huid, hs.wants, hs.pending⟩
   have hkeq : ipsOfKey (withFaults (step facts s (.filter ns name nodes ch 0)).1 0 0) (keyOf pod) =
       ipsOfKey s (keyOf pod) := by
     rw [show (step facts s (.filter ns name nodes ch 0)).1 = _ from hc]; rfl
   have hkeq' : ipsOfKey (step facts s (.filter ns name nodes ch 0)).1 (keyOf pod) = ipsOfKey s (keyOf pod) := hkeq
-  obtain ⟨ip', hpf', hips⟩ := bind_reuse facts node hb ch' hr (by rw [hkeq]; exact hk) hok
+  obtain ⟨ip', hpf', hips⟩ := bind_reuse facts node hb ch' hans hr (by rw [hkeq]; exact hk) hok
   have hip' : ip' = ip := by
     rw [hkeq] at hpf'
     have := choiceIsMin_first hmin' hr (by rw [hkeq']; exact hk) (by rw [hkeq']; exact hpf')
@@ -261,19 +276,20 @@ theorem bound_ip_routable_sorted (s : State) (ns name : String) (pod : Pod) (nod
     (hmin : choiceIsMin Generated.C06.byKeyNoRangesSorted s pod ch = true)
     (hmin' : choiceIsMin Generated.C06.byKeyNoRangesSorted (step facts s (.filter ns name nodes ch 0)).1 pod ch' = true)
     (hn : node ∈ (step facts s (.filter ns name nodes ch 0)).2.nodes)
+    (hans : ch'.answer = .truthful)
     (hok : (step facts (step facts s (.filter ns name nodes ch 0)).1 (.bind ns name uid node ch' 0 0)).2.res = .ok) :
     ∀ h, h ∈ (step facts (step facts s (.filter ns name nodes ch 0)).1 (.bind ns name uid node ch' 0 0)).2.ips →
       Routable s h.ip node := by
   by_cases hr : pod.ranges = []
   · by_cases hk : ipsOfKey s (keyOf pod) = []
-    · exact bound_ip_routable s ns name pod nodes ch ch' node uid hs hwf huid (fun _ => by rw [hk]; simp) hn hok
+    · exact bound_ip_routable s ns name pod nodes ch ch' node uid hs hwf huid (fun _ => by rw [hk]; simp) hn hans hok
     · obtain ⟨m, hm⟩ := minIP_isSome hk
-      obtain ⟨hips, hrt⟩ := bound_ip_is_lowest_held s ns name pod nodes ch ch' node uid hs hwf huid hr m hm hmin hmin' hn hok
+      obtain ⟨hips, hrt⟩ := bound_ip_is_lowest_held s ns name pod nodes ch ch' node uid hs hwf huid hr m hm hmin hmin' hn hans hok
       intro h hh
       rw [hips] at hh
       simp at hh; subst hh
       rw [toHInfo_ip]; exact hrt
-  · exact bound_ip_routable s ns name pod nodes ch ch' node uid hs hwf huid (fun e => absurd e hr) hn hok
+  · exact bound_ip_routable s ns name pod nodes ch ch' node uid hs hwf huid (fun e => absurd e hr) hn hans hok
 
 /-- `holder_offered_only_routable` WITHOUT `AtMostOneWithoutRanges`: with ranges, every address Bind will reuse is
     routable from every approved node; without ranges, the address Bind will reuse - the lowest address of the key
@@ -328,6 +344,49 @@ theorem partial_holder_offered_iff (s : State) (ns name : String) (pod : Pod) (n
         ((unfound s pod ≠ [] ∨ held s pod = []) → FreeRoutable s sn (unfound s pod)) := by
   have _ := hwf
   exact filter_default_iff (scene_withFaults hs 0 0) nodes ch hpol (fun e => absurd e hr) node
+
+/-! ## Histories: the state hypotheses hold in every state reached by filter / bind / reload sequences -/
+
+/-- The node-subnet cache is truthful (`CacheOK`) and memory / store are coherent in EVERY state reached from the
+    initial state by a history of API truth changes, lister syncs, Filters, Binds and configuration RELOADS (any
+    choices, any fault arguments; side conditions `allAssumed` of C04): a reload that changes the configuration
+    empties the cache, so Filter and Bind recompute nodeSubnet(node) from the NEW configuration. -/
+theorem state_hypotheses_hold_after_history (c : Conf) (ms : List Move) (hok : allAssumed facts (init c) ms = true)
+    (hh : ms.all histMove = true) : Coherent (run facts (init c) ms) ∧ CacheOK (run facts (init c) ms) :=
+  reachable_state_ok c ms hok hh
+
+/-- `filter_then_bind_succeeds` for the states such histories reach: only facts about the pod itself are assumed. -/
+theorem filter_then_bind_succeeds_after_history (c : Conf) (ms : List Move)
+    (hok : allAssumed facts (init c) ms = true) (hh : ms.all histMove = true) (ns name : String) (pod : Pod)
+    (nodes : List String) (ch : Choice) (node : String) (uid : Nat)
+    (ht : Tbl.get (run facts (init c) ms).pods (ns, name) = some pod)
+    (hl : Tbl.get (run facts (init c) ms).vPods (ns, name) = some pod) (hw : pod.wants = true) (hp : pod.node = "")
+    (hwf : WF (run facts (init c) ms) pod = true) (huid : uid = 0 ∨ pod.uid = uid)
+    (hn : node ∈ (step facts (run facts (init c) ms) (.filter ns name nodes ch 0)).2.nodes) :
+    (∀ ch', ch'.answer = .truthful →
+      (step facts (step facts (run facts (init c) ms) (.filter ns name nodes ch 0)).1
+        (.bind ns name uid node ch' 0 0)).2.res = .inadmissible ∨
+      okOrWaiting (step facts (step facts (run facts (init c) ms) (.filter ns name nodes ch 0)).1
+        (.bind ns name uid node ch' 0 0)).2.res) ∧
+    (∃ ch', okOrWaiting (step facts (step facts (run facts (init c) ms) (.filter ns name nodes ch 0)).1
+        (.bind ns name uid node ch' 0 0)).2.res) :=
+  filter_then_bind_succeeds _ ns name pod nodes ch node uid (scene_of_history c ms hok hh ns name pod ht hl hw hp) hwf huid hn
+
+/-- `fresh_pod_offered_iff_free_ip` for the states such histories reach - in particular after a reload that changed a
+    node's subnet (wider / narrower prefix, moved to another pool, removed): a fresh default-policy pod is offered
+    EXACTLY the candidates that have a free routable address under the configuration NOW in force. -/
+theorem fresh_pod_offered_iff_free_ip_after_history (c : Conf) (ms : List Move)
+    (hok : allAssumed facts (init c) ms = true) (hh : ms.all histMove = true) (ns name : String) (pod : Pod)
+    (nodes : List String) (ch : Choice) (node : String)
+    (ht : Tbl.get (run facts (init c) ms).pods (ns, name) = some pod)
+    (hl : Tbl.get (run facts (init c) ms).vPods (ns, name) = some pod) (hw : pod.wants = true) (hp : pod.node = "")
+    (hwf : WF (run facts (init c) ms) pod = true) (hpol : policyOf pod = 0)
+    (hfresh : held (run facts (init c) ms) pod = []) :
+    (step facts (run facts (init c) ms) (.filter ns name nodes ch 0)).2.res = .ok ∧
+    (node ∈ (step facts (run facts (init c) ms) (.filter ns name nodes ch 0)).2.nodes ↔
+      node ∈ nodes ∧ FreeRoutableNode (run facts (init c) ms) node pod.ranges) :=
+  fresh_pod_offered_iff_free_ip _ ns name pod nodes ch node (scene_of_history c ms hok hh ns name pod ht hl hw hp) hwf
+    hpol hfresh
 
 /-! ## Non-vacuity: a concrete topology
 
@@ -534,7 +593,7 @@ theorem filter_then_bind_overlap_counter :
       (.bind "ns1" "solo-0" 1 "n1" ch' 0 0)).2.res = .err "not-enough-ip" := by
   refine ⟨by decide, by decide, by decide, by decide, by decide, fun ch' => ?_⟩
   cases ch' with
-  | mk first pick => cases first <;> cases pick <;> rfl
+  | mk first pick answer => cases first <;> cases pick <;> rfl
 
 /-- three requested range lists: 10.10.0.2 (pool A), 10.11.0.2 (pool C), 10.10.0.3 (pool A); A and C share no node subnet -/
 def rssD7 : List Ranges := [[(168427522, 168427522)], [(168493058, 168493058)], [(168427523, 168427523)]]
@@ -591,5 +650,52 @@ theorem ipinfo_first_pool_counter :
     (toHInfoP false (init conf) 168427525).gw = poolA.gateway ∧ (toHInfo (init conf) 168427525).gw = poolB.gateway ∧
     poolA.gateway ≠ poolB.gateway := by
   refine ⟨by decide, by decide, by decide⟩
+
+/-- one pool whose node subnet is 10.9.1.0/24, and the same pool after a reload that widened it to 10.9.0.0/23 -/
+def poolNarrow : Pool := { nodeSubnets := [sn1], ranges := [(168427522, 168427524)], gateway := 168427521, bits := 24, vlan := 0 }
+def poolWide : Pool := { poolNarrow with nodeSubnets := [⟨168361984, 23⟩] }
+def confNarrow : Conf := { pools := [poolNarrow], nodes := [("n1", 168362245)] }
+def podB : Pod :=
+  { ns := "ns1", name := "b-0", uid := 2, kind := .bare, app := "", pool := "", policy := 0, ranges := [],
+    wants := true, phase := .pending, node := "", handed := [] }
+/-- a filter caches n1 ↦ 10.9.1.0/24; then the configuration is reloaded; then a fresh pod is created -/
+def reloadHistory : List Move :=
+  [.createPod "ns1" "a-0" .bare "" "" 0 [] true, .listerSync true true, .filter "ns1" "a-0" ["n1"] {} 0,
+   .reload [poolWide] 0, .createPod "ns1" "b-0" .bare "" "" 0 [] true, .listerSync true true]
+
+set_option maxRecDepth 100000 in
+/-- non-vacuity of the `…_after_history` theorems: the history satisfies the side conditions, the reload went through
+    (the configuration in force lists 10.9.0.0/23, the cache is empty), and the fresh pod is offered n1, whose subnet
+    under the NEW configuration is the /23. -/
+example : allAssumed facts (init confNarrow) reloadHistory = true ∧ reloadHistory.all histMove = true ∧
+    (run facts (init confNarrow) reloadHistory).pools = [poolWide] ∧
+    (run facts (init confNarrow) reloadHistory).nodeCache = [] ∧
+    WF (run facts (init confNarrow) reloadHistory) podB = true ∧
+    Tbl.get (run facts (init confNarrow) reloadHistory).pods ("ns1", "b-0") = some podB ∧
+    (step facts (run facts (init confNarrow) reloadHistory) (.filter "ns1" "b-0" ["n1"] {} 0)).2.nodes = ["n1"] := by
+  refine ⟨by decide, by decide, by decide, by decide, by decide, by decide, by decide⟩
+
+/-- the state after the filter of `reloadHistory` (n1 ↦ 10.9.1.0/24 is cached) -/
+def sCached : State := run facts (init confNarrow) (reloadHistory.take 3)
+/-- … after a reload that does NOT drop the cache (`reloadP false` = a shadowed `updated` in updateConfigMap), then the
+    fresh pod -/
+def sStale : State :=
+  run facts (reloadP false (withFaults sCached 0 0) [poolWide]).1
+    [.createPod "ns1" "b-0" .bare "" "" 0 [] true, .listerSync true true]
+
+set_option maxRecDepth 100000 in
+/-- If a reload left the node-subnet cache in place, Filter would keep the subnet n1 had under the OLD configuration
+    (10.9.1.0/24) while the pool now lists 10.9.0.0/23: the fresh pod would NOT be offered n1 although 10.10.0.2 is free
+    and routable from it (`fresh_pod_offered_iff_free_ip` fails, under-offering; the cache violates `CacheOK`).  The code
+    as it is drops the cache (`fact_reload_clears_node_subnet_cache`); replay corpus/C06/reload-widens-node-subnet.ops. -/
+theorem stale_cache_after_reload_counter :
+    Tbl.get sStale.nodeCache "n1" = some sn1 ∧ nodeSubnetOfNode sStale "n1" = some ⟨168361984, 23⟩ ∧
+    (step facts sStale (.filter "ns1" "b-0" ["n1"] {} 0)).2.nodes = [] ∧
+    168427522 ∈ sStale.free ∧ Routable sStale 168427522 "n1" ∧ ¬ CacheOK sStale := by
+  refine ⟨by decide, by decide, by decide, by decide, ?_, ?_⟩
+  · rw [routable_iff_b (by decide)]; decide
+  · intro h
+    have := h "n1" sn1 (by decide)
+    exact absurd this (by decide)
 
 end Galaxy.Props.C06
